@@ -79,7 +79,12 @@ def ensure_env():
 
 
 def assert_repo():
+    import logging
+
     import sqlfluff
+
+    # rule crashes are observed as violations (C05), not read from the log
+    logging.disable(logging.CRITICAL)
 
     f = os.path.abspath(sqlfluff.__file__)
     if not f.startswith(REPO_SRC):
@@ -374,6 +379,10 @@ def run_property(pid: str, tier: str, seed: int) -> int:
         coverage.update(m.post(agg, tier) or {})
     floor = getattr(m, "FLOOR", {}).get(tier, 2)
     rc = 0
+    if os.environ.get("VF_DUMP_FAILS"):
+        with open(os.environ["VF_DUMP_FAILS"], "w") as fh:
+            for f in agg["fails"]:
+                fh.write(json.dumps(f, default=str) + "\n")
     if unmatched:
         unmatched.sort(key=lambda f: (_case_size(f["case"]), f["clause"]))
         by_sig = {}
